@@ -639,6 +639,16 @@ class Engine(object):
             return self.truth(v.val) if isinstance(v.val, SSeq) else bool(v.val)
         if isinstance(v, PDict):
             return bool(v.val)
+        if isinstance(v, PObj) and isinstance(v.cls, type):
+            # Python asks __bool__, then __len__: a class that defines one of them decides the truth of its instances
+            for special in ('__bool__', '__len__'):
+                if isinstance(v.fields.get(special), PExt):
+                    r = self.call(v.fields[special], [], {}, None)
+                    return self.truth(r) if special == '__bool__' else self.truth(self.compare(ast.NotEq(), r, 0))
+                if any(special in vars(k) for k in v.cls.__mro__ if k is not object):
+                    r = self.call_method(v, special, [], {}, None)
+                    return self.truth(r) if special == '__bool__' else self.truth(self.compare(ast.NotEq(), r, 0))
+            return True
         if isinstance(v, (PObj, PFunc, PBound, PExc)):
             return True
         if isinstance(v, PMap):
